@@ -14,6 +14,34 @@ fn is_connecting(c: &Connection) -> bool {
     matches!(c.state, State::Connecting(_) | State::Token(_))
 }
 
+#[cfg(not(kani))]
+/// C04: the datagram is accepted by the library's own reader without a warning and carries as many chunks as it announces
+fn wire_clean(data: &[u8]) -> bool {
+    use crate::protocol7::{ChunksIter, ConnectedPacket, ConnectedPacketType as T, Packet as P};
+    for hint in [()] {
+        let _ = hint;
+        let mut buf = [0u8; 2048];
+        let mut w = sim::Sink(0);
+        if let Ok(p) = P::read(&mut w, data, &mut buf[..]) {
+            if w.0 != 0 {
+                continue;
+            }
+            if let P::Connected(ConnectedPacket { type_: T::Chunks(_, n, payload), .. }) = p {
+                let mut it = ChunksIter::new(payload, n);
+                let mut cnt = 0usize;
+                while let Some(_) = it.next_warn(&mut w) {
+                    cnt += 1;
+                }
+                if w.0 != 0 || cnt != n as usize {
+                    continue;
+                }
+            }
+            return true;
+        }
+    }
+    false
+}
+
 const M: u16 = 1 << 10;
 
 /// contract Sequence::compare(self, other), requires both < 1024:
